@@ -18,7 +18,7 @@ pub enum Op {
 }
 
 pub const LIMITS: [usize; 4] = [0, 1, 2, 10];
-pub const MARKERS: [(&str, &str); 3] = [("[", "]"), ("<b>", "</b>"), ("", "")];
+pub const MARKERS: [(&str, &str); 4] = [("[", "]"), ("<b>", "</b>"), ("", ""), ("\u{ab}", "\u{bb}")];
 
 pub struct Menu {
     pub recs: Vec<Rec>,
@@ -334,7 +334,7 @@ impl Prop for C10 {
         vec![Dom::new("bfs-configs", self.configs.len() as u64, 1)
             .budget(self.tier.pick(170, 3000))
             .note(format!(
-                "one merged BFS per (language, initial store: empty / 1 / 3 / a crowd of 12 records, the crowd one level shallower) to depth {} (thorough: +1 for the language-free store), followed by the same search without state matching to depth {} (every key it reaches must be known to the merged search); 20 operations enabled in every state (19 when C01 drives it without clear)",
+                "one merged BFS per (language, initial store: empty / 1 / 3 / a crowd of 12 records, the crowd one level shallower) to depth {} (thorough: +1 for the language-free store), followed by the same search without state matching to depth {} (every key it reaches must be known to the merged search); 21 operations enabled in every state (20 when C01 drives it without clear)",
                 self.depth(true),
                 self.depth(false)
             ))]
@@ -359,7 +359,7 @@ impl Prop for C10 {
         }
     }
     fn rule(&self) -> String {
-        "explicit-state BFS: a state is an operation history over {search(q)×6, add(r)×6, clear, limit×4, markers×3} replayed on a fresh real Store; states merged by the canonical key (all Store fields incl. memo and index digest); every transition ending in a search is compared with a freshly built store. Non-trivial = a validated search transition that returned at least one hit. distinct = distinct histories (one per explored transition).".into()
+        "explicit-state BFS: a state is an operation history over {search(q)×6, add(r)×6, clear, limit×4, markers×4 (incl. a multi-byte pair)} replayed on a fresh real Store; states merged by the canonical key (all Store fields incl. memo and index digest); every transition ending in a search is compared with a freshly built store. Non-trivial = a validated search transition that returned at least one hit. distinct = distinct histories (one per explored transition).".into()
     }
     fn assumptions(&self) -> Vec<String> {
         vec![
